@@ -4,7 +4,7 @@ import io, contextlib, itertools, concurrent.futures as cf
 from . import base, tlc, flat
 
 HEAL = ["valid", "invalid", "echo", "raise"]
-POL = ["unique", "repeat", "alt", "marker1", "marker2", "marker3", "marker5", "raise1", "raise3"]
+POL = ["unique", "repeat", "blank", "alt", "marker1", "marker2", "marker3", "marker5", "raise1", "raise3"]
 MARKERS = ["SUCCESS", "SOLVED", "COMPLETE", "DONE", "FINISHED"]
 CAP = 60
 
@@ -103,6 +103,8 @@ def run_swarm(mods, p):
                 return "SUCCESS: solved by %s" % name
             if pol == "repeat":
                 return "still thinking"
+            if pol == "blank":
+                return ""
             if pol == "alt":
                 return "option %d" % (s % 2)
             return "partial result %d of %s" % (s, name)
